@@ -6,6 +6,28 @@ import subprocess
 ROOT = os.path.dirname(os.path.dirname(os.path.abspath(__file__)))
 
 CHECKS = {
+    "C18": dict(
+        technique="two instances of the TLA+ module specification (Copies.tla: shared prefix, Copy(pickle|deepcopy), divergent "
+                  "suffix) model-checked by TLC (CopyIsEqual, EqualObs, Independence); hash-sampled histories replayed with "
+                  "real pickle / deepcopy, both modules compared with both abstract states",
+        category="model_checking", design="4/C18",
+        text="For every history of <= 2 editing calls, a copy, and <= 1 (thorough 2) calls on either module, TLC checks that the copy "
+             "equals the original in every variable until it diverges and that no later call changes the other module; the replay "
+             "compares every public table, get_all_parameters/get_all_states, integrate against TLC's integers on both sides and "
+             "bit-identical gradients at the copy point; SWC cells (radius functions) and synaptic networks with trainables, "
+             "groups and clamps are copied, compared, differentiated and edited as well.",
+        note="Trusted: TLC; histories through View.delete_trainables are avoided (known findings of C19)."),
+    "C12": dict(
+        technique="metamorphic re-runs inside the TLA+ solver model (MC_Hines: Isolate a cell of a network, swap sibling leaf "
+                  "branches; invariant MetamorphicAgrees over Z_p, parameters keyed by compartment labels), model-checked by TLC; "
+                  "replay of networks vs cells alone, sibling swaps, heterogeneous and degenerate assemblies on the real code",
+        category="model_checking", design="4/C12",
+        text="TLC proves (mod p, for every forest within the bound) that a cell inside a synapse-free network gets exactly the voltages "
+             "of the cell alone and that exchanging sibling branches only permutes the solution. On the real code: assembled tables "
+             "keep every constituent's parameters/states/channels under contiguous indices (absent channels False/NaN, shared "
+             "names vt/eK), each cell of a network simulates as alone on every accepting backend, sibling order only permutes, "
+             "one-branch cell == branch, one-compartment branch == compartment.",
+        note="Trusted: TLC; Schwartz-Zippel; backends that refuse a network are not compared."),
     "C13": dict(
         technique="TLA+ state machine of set_ncomp call sequences (SetNcomp.tla: the abstract state is the shape, groups are "
                   "branch memberships) model-checked by TLC; every reachable state names the directly built module the edited "
